@@ -17,7 +17,8 @@ from harness import shapes
 cases = list(prop.cases(Rng(f"{pid}-0-{tier}"), tier))
 if getattr(prop, "SHAPES", True):
     srng = Rng(f"{pid}-0-{tier}-shapes")
-    cases = [shapes.decorate(c, srng) for c in cases]
+    cases = [shapes.decorate(c, srng, allow_threads=getattr(prop, 'THREADS', False)) for c in cases]
+run._SCHED.update({'threads_s': 10.0, 'preempt_cases': 36, 'per_kind_max': 4, 'per_kind': {}})
 recs, dis, fails = run.evaluate(prop, cases, st)
 print(len(recs), "cases;", len(dis), "disagreements;", len(fails), "oracle failures")
 if '-t' in sys.argv:
